@@ -85,7 +85,7 @@ func neoFSRuntimeTransactionModifier(r, tx) (err)
 @*/
 
 /*@
-module notaryactor
+module bootstrap
 props C13
 dialect go64
 
